@@ -155,6 +155,11 @@ type WindowConfig struct {
 	// window falls back to the expression bridge.
 	FieldExpressions    map[string]FieldExpression                                   `json:"fieldExpressions,omitempty"`
 	ExpressionEvaluator func(expr FieldExpression, row map[string]any) (any, error) `json:"-"`
+	// PostAggExpressions mirrors Config.PostAggExpressions. Its RequiredFields hold,
+	// per placeholder in SelectFields, the aggregate call as written, from which the
+	// global window takes the extra arguments of a parameterised aggregate
+	// (percentile(v, 0.5), nth_value(v, 2)) when it creates the running aggregate.
+	PostAggExpressions []PostAggregationExpression `json:"postAggExpressions,omitempty"`
 }
 
 // FieldExpression field expression configuration
